@@ -613,6 +613,12 @@ def binop(eng, op, a, b, node, frame, inplace=False):
     a, b = eng.to_tv(a), eng.to_tv(b)
     if a.sort == "str" and b.sort == "str" and isinstance(op, ast.Add):
         return tv_str(z3.Concat(a.t, b.t))
+    if isinstance(op, ast.Add) and "str" in (a.sort, b.sort) and "val" in (a.sort, b.sort):
+        other = a if a.sort == "val" else b
+        eng.implicit_raise(z3.Not(S.is_VStr(other.t)), "TypeError", node, "str + non-str")
+        x = a.t if a.sort == "str" else S.sv(a.t)
+        y = b.t if b.sort == "str" else S.sv(b.t)
+        return tv_str(z3.Concat(x, y))
     for v in (a, b):
         if v.sort == "str":
             eng.implicit_raise(z3.BoolVal(True), "TypeError", node, "str operand")
